@@ -104,13 +104,22 @@ Inductive recoverable (ps : list proc) : lockf -> metaf -> Prop :=
  | rec_meta_only d' : pid_alive ps d' = false -> recoverable ps LAbsent (MRec d')
  | rec_lock d : pid_alive ps d = false -> recoverable ps (LRec d) MAbsent
  | rec_lock_meta d d' : pid_alive ps d = false -> pid_alive ps d' = false -> recoverable ps (LRec d) (MRec d')
- | rec_half d : pid_alive ps d = false -> recoverable ps (LHalf d) MAbsent.
+ | rec_half d : pid_alive ps d = false -> recoverable ps (LHalf d) MAbsent
+ | rec_half_meta d d' : pid_alive ps d = false -> pid_alive ps d' = false -> recoverable ps (LHalf d) (MRec d').
+
+(* = every leftover whose pids are all dead *)
+Definition dead_leftover (ps : list proc) (l : lockf) (m : metaf) : Prop :=
+  (forall p, lock_pid l = Some p -> pid_alive ps p = false) /\ (forall p, meta_pid m = Some p -> pid_alive ps p = false).
+Lemma dead_leftover_recoverable ps l m : dead_leftover ps l m -> recoverable ps l m.
+Proof.
+  intros [Hl Hm]. destruct l as [|d|d], m as [|d']; cbn in *; constructor; auto.
+Qed.
 
 Lemma solo_recovers ps me l m : recoverable ps l m ->
   exists n, (n <= 15)%nat /\
     solo n 2 (mkst l m MAbsent ps) (srv me false AcqCreate 0) = (mkst (LRec me) (MRec me) MAbsent ps, srv me true Serving 1).
 Proof.
-  intros [|d' Hd'|d Hd|d d' Hd Hd'|d Hd].
+  intros [|d' Hd'|d Hd|d d' Hd Hd'|d Hd|d d' Hd Hd'].
   - exists 5%nat. split; [lia|]. unfold mkst, srv. do 5 sstep. reflexivity.
   - exists 5%nat. split; [lia|]. unfold mkst, srv. do 5 sstep. reflexivity.
   - exists 13%nat. split; [lia|]. unfold mkst, srv. do 13 sstep. reflexivity.
@@ -118,6 +127,7 @@ Proof.
     + apply N.eqb_eq in E. subst d'. exists 15%nat. split; [lia|]. unfold mkst, srv. do 15 sstep. reflexivity.
     + exists 14%nat. split; [lia|]. unfold mkst, srv. do 14 sstep. reflexivity.
   - exists 11%nat. split; [lia|]. unfold mkst, srv. do 11 sstep. reflexivity.
+  - exists 14%nat. split; [lia|]. unfold mkst, srv. do 14 sstep. reflexivity.
 Qed.
 
 Lemma sim_refl s : sim s s.
@@ -144,7 +154,7 @@ Proof. intros [E|E]; rewrite E; reflexivity. Qed.
    loop that is scheduled alone (any number of other contenders idle) serves after at most 15 steps with its own record
    in lock.json and meta.json, and nothing of a live pid was renamed or removed *)
 Theorem recovers_solo l m ps i me :
-  (forall q, In q ps -> contender q) -> nth_error ps i = Some (fresh me DServer) -> recoverable ps l m ->
+  (forall q, In q ps -> contender q) -> nth_error ps i = Some (fresh me DServer) -> dead_leftover ps l m ->
   exists n, (n <= 15)%nat
     /\ holders (run true (init l m ps) (repeat (Step i 2) n)) = [me]
     /\ s_lock (run true (init l m ps) (repeat (Step i 2) n)) = LRec me
@@ -152,7 +162,7 @@ Theorem recovers_solo l m ps i me :
     /\ s_took_lock (run true (init l m ps) (repeat (Step i 2) n)) = false
     /\ s_took_meta (run true (init l m ps) (repeat (Step i 2) n)) = false.
 Proof.
-  intros Hc Hi Hr. destruct (solo_recovers ps me l m Hr) as [n [Hn Hs]].
+  intros Hc Hi Hr. apply dead_leftover_recoverable in Hr. destruct (solo_recovers ps me l m Hr) as [n [Hn Hs]].
   exists n. split; [exact Hn|].
   destruct (run_solo n 2 (init l m ps) (mkst l m MAbsent ps) (srv me false AcqCreate 0) i (sim_refl _) Hi eq_refl) as [Hsim Hps].
   rewrite Hs in Hsim, Hps. cbn [fst snd] in Hsim, Hps.
@@ -162,7 +172,30 @@ Proof.
   intros z Hz. apply contender_no_guard. auto.
 Qed.
 
-(* ------------------------------------------------------------------ the wedge *)
+(* ------------------------------------------------------------------ the wedge, before fix S23 *)
+(* try_cleanup_corrupt_lock_file before the fix: ANY meta.json made it refuse *)
+Definition micro_unfixed (ag : bool) (s : state) (o : N) (q : proc) : state * proc :=
+  match p_pc q, s_meta s with
+  | CoMetaExists, MRec _ => (s, ret ag (s_procs s) o q (p_guard q) (RCorrupt false))
+  | _, _ => micro ag s o q
+  end.
+Definition step_unfixed (ag : bool) (s : state) (e : event) : state :=
+  match e with
+  | Step i o =>
+      match nth_error (s_procs s) i with
+      | Some q => if p_alive q
+                  then let '(s', q') := micro_unfixed ag s o q in with_procs s' (upd (s_procs s) i q')
+                  else s
+      | None => s
+      end
+  | Crash i =>
+      match nth_error (s_procs s) i with
+      | Some q => with_procs s (upd (s_procs s) i (kill q))
+      | None => s
+      end
+  end.
+Definition run_unfixed (ag : bool) (s : state) (es : list event) : state := fold_left (step_unfixed ag) es s.
+
 Definition wedge_pc (k : pc) : bool :=
   match k with
   | AcqCreate | RdMeta | RdLock | LockExists | Live _ | Ping _ | StExists _ | StReread _ | CoExists | CoMetaExists | Done => true
@@ -175,11 +208,11 @@ Record wlocal (q : proc) : Prop := mkW {
 }.
 
 Lemma micro_wedge ag s o q s' q' d d' :
-  s_lock s = LHalf d -> s_meta s = MRec d' -> wlocal q -> micro ag s o q = (s', q') ->
+  s_lock s = LHalf d -> s_meta s = MRec d' -> wlocal q -> micro_unfixed ag s o q = (s', q') ->
   s_lock s' = LHalf d /\ s_meta s' = MRec d' /\ wlocal q'.
 Proof.
   intros Hl Hm [Wg Wp Wd] H. apply drv_cases in Wd.
-  unfold micro in H. rewrite Hl, Hm in H.
+  unfold micro_unfixed, micro in H. rewrite Hl, Hm in H.
   destruct (p_pc q) eqn:Hpc; cbn in Wp; try discriminate;
   destruct Wd as [Hd|[Hd|Hd]]; unfold ret, goto in H; rewrite ?Hd in H; cbn in H.
   all: break; inversion H; subst; clear H; cbn.
@@ -192,12 +225,12 @@ Record Wedge (d d' : pid) (s : state) : Prop := mkWedge {
   Wd_all : forall q, In q (s_procs s) -> wlocal q
 }.
 
-Lemma step_wedge ag d d' s e : Wedge d d' s -> Wedge d d' (step ag s e).
+Lemma step_wedge ag d d' s e : Wedge d d' s -> Wedge d d' (step_unfixed ag s e).
 Proof.
-  intros [Hl Hm Ha]. destruct e as [i o|i]; cbn [step].
+  intros [Hl Hm Ha]. destruct e as [i o|i]; cbn [step_unfixed].
   - destruct (nth_error (s_procs s) i) as [q|] eqn:Hq; [|constructor; assumption].
     destruct (p_alive q); [|constructor; assumption].
-    destruct (micro ag s o q) as [s' q'] eqn:HM.
+    destruct (micro_unfixed ag s o q) as [s' q'] eqn:HM.
     destruct (micro_wedge _ _ _ _ _ _ _ _ Hl Hm (Ha q (nth_error_In _ _ Hq)) HM) as [A [B C]].
     constructor; cbn; try assumption.
     intros x Hx. apply in_upd in Hx. destruct Hx as [[-> _]|[j [_ Hj]]]; [assumption|].
@@ -209,17 +242,17 @@ Proof.
     + apply Ha. eapply nth_error_In; eassumption.
 Qed.
 
-Lemma run_wedge ag d d' es : forall s, Wedge d d' s -> Wedge d d' (run ag s es).
+Lemma run_wedge ag d d' es : forall s, Wedge d d' s -> Wedge d d' (run_unfixed ag s es).
 Proof. induction es as [|e es IH]; intros s H; [exact H|]. cbn. apply IH. apply step_wedge. exact H. Qed.
 
-(* a half-written lock next to ANY meta.json is never removed: corrupt cleanup refuses because meta.json exists, stale
-   cleanup refuses because the lock has no record — whoever the contenders are, whatever the schedule, crashes or not,
-   timer or no timer: nobody ever becomes the authority of that store again *)
-Theorem wedged_half_lock_with_meta ag d d' ps es :
+(* BEFORE the fix a half-written lock next to ANY meta.json was never removed: corrupt cleanup refused because meta.json
+   exists, stale cleanup refuses because the lock has no record — whoever the contenders, whatever the schedule, crashes
+   or not, timer or no timer: nobody ever became the authority of that store again *)
+Theorem unfixed_wedged_half_lock_with_meta ag d d' ps es :
   (forall q, In q ps -> contender q) ->
-  holders (run ag (init (LHalf d) (MRec d') ps) es) = []
-  /\ s_lock (run ag (init (LHalf d) (MRec d') ps) es) = LHalf d
-  /\ s_meta (run ag (init (LHalf d) (MRec d') ps) es) = MRec d'.
+  holders (run_unfixed ag (init (LHalf d) (MRec d') ps) es) = []
+  /\ s_lock (run_unfixed ag (init (LHalf d) (MRec d') ps) es) = LHalf d
+  /\ s_meta (run_unfixed ag (init (LHalf d) (MRec d') ps) es) = MRec d'.
 Proof.
   intros Hc.
   assert (W0 : Wedge d d' (init (LHalf d) (MRec d') ps)).
@@ -228,25 +261,6 @@ Proof.
   split; [|split; assumption].
   unfold holders. rewrite filter_none; [reflexivity|].
   intros x Hx. unfold is_holder. rewrite (W_guard _ (C x Hx)). apply andb_false_r.
-Qed.
-
-(* the full recovery statement for dead leftovers is therefore false: a concrete instance *)
-Definition recovers_full : Prop :=
-  forall l m ps i me,
-    (forall q, In q ps -> contender q) -> nth_error ps i = Some (fresh me DServer) ->
-    (forall p, lock_pid l = Some p -> pid_alive ps p = false) ->
-    (forall p, meta_pid m = Some p -> pid_alive ps p = false) ->
-    exists es, holders (run true (init l m ps) es) <> [].
-Lemma recovers_full_false : ~ recovers_full.
-Proof.
-  intros H.
-  destruct (H (LHalf 900) (MRec 901) [fresh 1 DServer] 0%nat 1) as [es Hes].
-  - intros q [<-|[]]. left; reflexivity.
-  - reflexivity.
-  - cbn. intros p E. inversion E; subst. reflexivity.
-  - cbn. intros p E. inversion E; subst. reflexivity.
-  - apply Hes. apply (wedged_half_lock_with_meta true 900 901 [fresh 1 DServer] es).
-    intros q [<-|[]]. left; reflexivity.
 Qed.
 
 (* ------------------------------------------------------------------ the client-side wedge: meta.json of a gone authority, no lock *)
